@@ -54,3 +54,10 @@ func (nd *KVNode) VerifRegisterWaiter(id uint64) func() (interface{}, bool) {
 		}
 	}
 }
+
+// Reset moves the apply cursor, as a restart from a snapshot at that index does.
+func (p *VerifProgress) Reset(index uint64, term uint64) {
+	p.np.appliedi = index
+	p.np.appliedt = term
+	p.np.snapi = index
+}
